@@ -45,6 +45,17 @@ def class_consts(run, qual):
 
 
 def module_consts(run, modname):
+    busy = run.__dict__.setdefault('_mc_busy', set())
+    if modname in busy:
+        return {}               # a global of this module that is not a constant, looked up while folding the module
+    busy.add(modname)
+    try:
+        return _module_consts(run, modname)
+    finally:
+        busy.discard(modname)
+
+
+def _module_consts(run, modname):
     m = run.prog.modules[modname]
     env = {}
     for s in m.live:
